@@ -385,6 +385,39 @@ impl Check for C03 {
                 }
             }
         });
+        // J: draw_text, the fill-like entry point with its own wiring of coverage, blend mode and
+        // global alpha into the compositor (coverage = what the glyph rasteriser produced)
+        if font_available() {
+            let (tw, th) = (14, 9);
+            let texts: [(&str, f32, f32, f32); 3] = [("Lo", 9.0, 0.5, 7.25), ("i", 14.0, 5.0, 8.0), ("W.", 7.0, -2.0, 6.5)];
+            let tsrcs = [SrcSpec::Solid(0xff204080), SrcSpec::Solid(0x80402010), SrcSpec::Linear { stops: vec![Stop { pos: 0.0, color: 0xffff0000 }, Stop { pos: 1.0, color: 0x800000ff }], spread: Spr::Pad, p: [0., 0., 14., 0.] }];
+            let txs: [Xf; 3] = [IDENT, [1., 0., 0., 1., 0.25, -0.5], [1.25, 0.25, 0., 1., 0., 0.]];
+            let tctx = contexts(tw, th, true);
+            run.bound("draw_text", format!("draw_text of {} runs (test font: first loadable of {:?}) x 28 modes x {} alphas x {} sources x {} transforms x 2 aa x {} contexts on {}x{}", texts.len(), FONT_FILES, alphas.len(), tsrcs.len(), txs.len(), tctx.len(), tw, th));
+            run.par(MODES.len(), |mi, l| {
+                let mode = MODES[mi];
+                for &alpha in alphas {
+                    for aa in [true, false] {
+                        for (text, size, x, y) in texts {
+                            for src in &tsrcs {
+                                for xf in &txs {
+                                    for (_cn, pre, suf) in &tctx {
+                                        let mut ops = pre.clone();
+                                        ops.push(Op::SetTransform(*xf));
+                                        ops.push(Op::Text(size, text.to_string(), x, y, src.clone(), Opts { mode, alpha, aa }));
+                                        ops.extend(suf.iter().cloned());
+                                        let scene = Scene { w: tw, h: th, dst: dst_cols(tw, th, &VALS12, 3), ops };
+                                        run_one(run, 8000 + mi, l, &scene);
+                                    }
+                                }
+                            }
+                        }
+                    }
+                }
+            });
+        } else {
+            run.bound("draw_text", format!("not explored: none of the font files {:?} could be loaded", FONT_FILES));
+        }
         super::mixed::explore_mixed(run, "C03", owns, if deep { 6 } else { 5 }, false);
     }
 
